@@ -24,7 +24,7 @@ FN = ["p_shm_new", "pp_shm_create_handle", "pp_shm_clean_handle", "p_shm_free", 
       "p_semaphore_new", "p_semaphore_free", "p_semaphore_acquire", "p_semaphore_release"]
 UNITS = [
     U("new", "h_new", canaries=3, functions=FN, replay={"driver": "C07_replay.c", "mode": "zero_size", "args": []}),
-    U("new_first_open_race", "h_new_first_open_race", canaries=1, functions=[], loops=LOOPS_PEER, replay={"driver": "C07_replay.c", "mode": "first_open_race", "args": [], "timeout": 60}),
+    U("new_first_open_race", "h_new_first_open_race", canaries=1, functions=[], loops=LOOPS_PEER, defines=["VERIF_PEER_OPENER"], replay={"driver": "C07_replay.c", "mode": "first_open_race", "args": [], "timeout": 60}),
     U("free", "h_free", canaries=2, functions=[], loops={}, replay={"driver": "C07_replay.c", "mode": "free_maplen", "args": []}),
     U("take_ownership_free", "h_take_ownership_free", functions=[], loops={}),
     U("lock_unlock", "h_lock_unlock", canaries=2, functions=[]),
